@@ -1,6 +1,8 @@
 import Driver.Wire
 import Marwood.Store.Prelude
+import Marwood.Store.CharOps
 import Marwood.Spec.Store
+import Marwood.Spec.StrVec
 /-!
 Driver commands of the Store area.
 
@@ -171,9 +173,47 @@ def fuelOf (s : Store) : Nat :=
 def liftV (s : Store) (r : Outcome VCell) : Res := do .ok (s, ← r)
 
 /-- builtins that can be the callee of `map` / `for-each` (and the plain operations) -/
-def runModelBase (s : Store) (name : String) (args : List VCell) : Option Res :=
+def cmpOps : List (String × CmpOp) :=
+  [("=?", .eq), ("<?", .lt), (">?", .gt), ("<=?", .le), (">=?", .ge)]
+
+def runModelBase (T : CaseTable) (s : Store) (name : String) (args : List VCell) : Option Res :=
   let fuel := fuelOf s
+  if name.startsWith "string-ci" then
+    (cmpOps.lookup (name.drop 9).toString).map fun op => stringComp (strLower T) op s args
+  else if name.startsWith "string" && (cmpOps.lookup (name.drop 6).toString).isSome then
+    (cmpOps.lookup (name.drop 6).toString).map fun op => stringComp id op s args
+  else if name.startsWith "char-ci" then
+    (cmpOps.lookup (name.drop 7).toString).map fun op => charComp (charFoldcase T) op s args
+  else if name.startsWith "char" && (cmpOps.lookup (name.drop 4).toString).isSome then
+    (cmpOps.lookup (name.drop 4).toString).map fun op => charComp id op s args
+  else
   match name with
+  | "string-length" => some (stringLength s args)
+  | "string-ref" => some (stringRef s args)
+  | "string-set!" => some (stringSet s args)
+  | "substring" => some (match args with | [_, _, _] => stringCopy s args | _ => .err .arity)
+  | "string-copy" => some (stringCopy s args)
+  | "string-fill!" => some (stringFill s args)
+  | "string->list" => some (stringToList s args)
+  | "string->vector" => some (stringToVector s args)
+  | "vector->string" => some (vectorToString s args)
+  | "list->string" => some (listToString fuel s args)
+  | "string" => some (stringB s args)
+  | "make-string" => some (makeString s args)
+  | "string-append" => some (stringAppend s args)
+  | "string-upcase" => some (stringCase (strUpper T) s args)
+  | "string-downcase" => some (stringCase (strLower T) s args)
+  | "string-foldcase" => some (stringCase (strLower T) s args)
+  | "char->integer" => some (charToInteger s args)
+  | "integer->char" => some (integerToChar s args)
+  | "char-alphabetic?" => some (charPred T.alphabetic s args)
+  | "char-numeric?" => some (charPred T.numeric s args)
+  | "char-whitespace?" => some (charPred T.whitespace s args)
+  | "char-upper-case?" => some (charPred T.isUpper s args)
+  | "char-lower-case?" => some (charPred T.isLower s args)
+  | "char-upcase" => some (charMap (charUpcase T) s args)
+  | "char-downcase" => some (charMap (charFoldcase T) s args)
+  | "char-foldcase" => some (charMap (charFoldcase T) s args)
   | "cons" => some (cons s args)
   | "car" => some (car s args)
   | "cdr" => some (cdr s args)
@@ -209,23 +249,58 @@ def runModelBase (s : Store) (name : String) (args : List VCell) : Option Res :=
 
 /-- a procedure value applied by `map`/`for-each`; a closure result goes back through `finish`
     exactly like a direct call -/
-def calleeModel (f : VCell) : Callee := fun s args =>
+def calleeModel (T : CaseTable) (f : VCell) : Callee := fun s args =>
   match f with
-  | .builtin name => match runModelBase s name args with
+  | .builtin name => match runModelBase T s name args with
     | some r => r
     | none => .err .notProc
   | _ => .err .notProc
 
-def runModel (s : Store) (name : String) (args : List VCell) : Option Res :=
+def runModel (T : CaseTable) (s : Store) (name : String) (args : List VCell) : Option Res :=
   match name, args with
-  | "map", f :: ls => if ls.isEmpty then some (.err .arity) else some (map (calleeModel f) (fuelOf s) s ls)
-  | "for-each", f :: ls => if ls.isEmpty then some (.err .arity) else some (forEach (calleeModel f) (fuelOf s) s ls)
+  | "map", f :: ls => if ls.isEmpty then some (.err .arity) else some (map (calleeModel T f) (fuelOf s) s ls)
+  | "for-each", f :: ls => if ls.isEmpty then some (.err .arity) else some (forEach (calleeModel T f) (fuelOf s) s ls)
   | "map", [] => some (.err .arity)
   | "for-each", [] => some (.err .arity)
-  | _, _ => runModelBase s name args
+  | _, _ => runModelBase T s name args
 
-def runSpecBase (st : RStore) (name : String) (args : List RVal) : Option RRes :=
+def runSpecBase (T : CaseTable) (st : RStore) (name : String) (args : List RVal) : Option RRes :=
+  if name.startsWith "string-ci" then
+    (cmpOps.lookup (name.drop 9).toString).map fun op => rStringCmp (strLower T) op st args
+  else if name.startsWith "string" && (cmpOps.lookup (name.drop 6).toString).isSome then
+    (cmpOps.lookup (name.drop 6).toString).map fun op => rStringCmp id op st args
+  else if name.startsWith "char-ci" then
+    (cmpOps.lookup (name.drop 7).toString).map fun op => rCharCmp (simpleLower T) op st args
+  else if name.startsWith "char" && (cmpOps.lookup (name.drop 4).toString).isSome then
+    (cmpOps.lookup (name.drop 4).toString).map fun op => rCharCmp id op st args
+  else
   match name with
+  | "string-length" => some (rStringLength st args)
+  | "string-ref" => some (rStringRef st args)
+  | "string-set!" => some (rStringSet st args)
+  | "substring" => some (match args with | [_, _, _] => rStringCopy st args | _ => .err .arity)
+  | "string-copy" => some (rStringCopy st args)
+  | "string-fill!" => some (rStringFill st args)
+  | "string->list" => some (rStringToList st args)
+  | "string->vector" => some (rStringToVector st args)
+  | "vector->string" => some (rVectorToString st args)
+  | "list->string" => some (rListToString st args)
+  | "string" => some (rString st args)
+  | "make-string" => some (rMakeString st args)
+  | "string-append" => some (rStringAppend st args)
+  | "string-upcase" => some (rStringCase (strUpper T) st args)
+  | "string-downcase" => some (rStringCase (strLower T) st args)
+  | "string-foldcase" => some (rStringCase (strLower T) st args)
+  | "char->integer" => some (rCharToInteger st args)
+  | "integer->char" => some (rIntegerToChar st args)
+  | "char-alphabetic?" => some (rCharPred T.alphabetic st args)
+  | "char-numeric?" => some (rCharPred T.numeric st args)
+  | "char-whitespace?" => some (rCharPred T.whitespace st args)
+  | "char-upper-case?" => some (rCharPred T.isUpper st args)
+  | "char-lower-case?" => some (rCharPred T.isLower st args)
+  | "char-upcase" => some (rCharMap (simpleUpper T) st args)
+  | "char-downcase" => some (rCharMap (simpleLower T) st args)
+  | "char-foldcase" => some (rCharMap (simpleLower T) st args)
   | "cons" => some (rCons st args)
   | "car" => some (rCar st args)
   | "cdr" => some (rCdr st args)
@@ -259,23 +334,63 @@ def runSpecBase (st : RStore) (name : String) (args : List RVal) : Option RRes :
   | "vector-copy!" => some (rVectorCopyBang st args)
   | _ => none
 
-def calleeSpec (f : RVal) : RCallee := fun st args =>
+def calleeSpec (T : CaseTable) (f : RVal) : RCallee := fun st args =>
   match f with
-  | .builtin name => match runSpecBase st name args with
+  | .builtin name => match runSpecBase T st name args with
     | some r => r
     | none => .err .notProc
   | _ => .err .notProc
 
-def runSpec (st : RStore) (name : String) (args : List RVal) : Option RRes :=
+def runSpec (T : CaseTable) (st : RStore) (name : String) (args : List RVal) : Option RRes :=
   match name, args with
-  | "map", f :: ls => if ls.isEmpty then some (.err .arity) else some (rMap (calleeSpec f) st ls)
-  | "for-each", f :: ls => if ls.isEmpty then some (.err .arity) else some (rForEach (calleeSpec f) st ls)
+  | "map", f :: ls => if ls.isEmpty then some (.err .arity) else some (rMap (calleeSpec T f) st ls)
+  | "for-each", f :: ls => if ls.isEmpty then some (.err .arity) else some (rForEach (calleeSpec T f) st ls)
   | "map", [] => some (.err .arity)
   | "for-each", [] => some (.err .arity)
-  | _, _ => runSpecBase st name args
+  | _, _ => runSpecBase T st name args
 
-def modelMachine : Machine Store VCell := ⟨litModel, runModel, clsModel⟩
-def specMachine : Machine RStore RVal := ⟨litSpec, runSpec, clsSpec⟩
+def modelMachine (T : CaseTable) : Machine Store VCell := ⟨litModel, runModel T, clsModel⟩
+def specMachine (T : CaseTable) : Machine RStore RVal := ⟨litSpec, runSpec T, clsSpec⟩
+
+/-! ## the case-mapping oracle sent by the harness
+
+`T<entry>;<entry>;…` with `entry = cp:lower:upper:flags`, `lower`/`upper` = `.`-separated code points of
+`char::to_lowercase` / `to_uppercase`, flags = alphabetic 1 | numeric 2 | whitespace 4 | lowercase 8 |
+uppercase 16. A character that is looked up but missing from the table maps to U+FFFD followed by
+itself and has no class: a visible disagreement, never a silent default. -/
+
+structure Entry where
+  cp : Nat
+  lower : List Char
+  upper : List Char
+  flags : Nat
+
+def decChars (w : String) : Option (List Char) :=
+  (w.splitOn ".").mapM fun x => do
+    let n ← x.toNat?
+    if h : n.isValidChar then some (Char.ofNatAux n h) else none
+
+def decEntry (w : String) : Option Entry :=
+  match w.splitOn ":" with
+  | [cp, lo, up, fl] => do
+    pure { cp := ← cp.toNat?, lower := ← decChars lo, upper := ← decChars up, flags := ← fl.toNat? }
+  | _ => none
+
+def tableOf (es : List Entry) : CaseTable :=
+  let find (c : Char) : Option Entry := es.find? fun e => e.cp == c.toNat
+  let missing (c : Char) : List Char := [Char.ofNat 0xFFFD, c]
+  let flag (bit : Nat) (c : Char) : Bool := match find c with
+    | some e => (e.flags / bit) % 2 == 1
+    | none => false
+  { lower := fun c => match find c with | some e => e.lower | none => missing c,
+    upper := fun c => match find c with | some e => e.upper | none => missing c,
+    alphabetic := flag 1, numeric := flag 2, whitespace := flag 4, isLower := flag 8,
+    isUpper := flag 16 }
+
+def decTable (w : String) : Option CaseTable :=
+  if !w.startsWith "T" then none
+  else if w == "T" then some (tableOf [])
+  else ((w.drop 1).toString.splitOn ";").mapM decEntry |>.map tableOf
 
 /-! ## the sequence interpreter (shared by model and spec) -/
 
@@ -339,8 +454,14 @@ def answer (steps : Option (List String)) : Option String :=
 
 def handle (cmd : String) (args : List String) : Option String :=
   match cmd with
-  | "c14" => answer (runSeq modelMachine Store.empty [] args [])
-  | "c14s" => answer (runSeq specMachine RStore.empty [] args [])
+  | "c14" => answer (runSeq (modelMachine (tableOf [])) Store.empty [] args [])
+  | "c14s" => answer (runSeq (specMachine (tableOf [])) RStore.empty [] args [])
+  | "c15" => match args with
+    | t :: ops => (decTable t).bind fun T => answer (runSeq (modelMachine T) Store.empty [] ops [])
+    | [] => none
+  | "c15s" => match args with
+    | t :: ops => (decTable t).bind fun T => answer (runSeq (specMachine T) RStore.empty [] ops [])
+    | [] => none
   | _ => none
 
 end Marwood.Driver.Store
